@@ -18,6 +18,7 @@ def concretize(model, v, st):
     if v is None or isinstance(v, (bool, int, str)): return v
     if isinstance(v, SStr): return model.sstr(st.norm(v))
     if isinstance(v, V.PDict): return {concretize(model, k, st): concretize(model, x, st) for k, x in v.items}
+    if isinstance(v, dict): return {k: concretize(model, x, st) for k, x in v.items()}
     if isinstance(v, list): return [concretize(model, x, st) for x in v]
     if isinstance(v, tuple): return tuple(concretize(model, x, st) for x in v)
     if isinstance(v, sstr.SInt): return model.expr(v.z).as_long()
